@@ -32,14 +32,19 @@ def spec_rm(parts, red, lo, hi):
 
 
 def run(ck: Check):
+    import lithium.testcases as tcs
     from lithium.testcases import TestcaseLine
     from lithium import util
+    classes = [tcs.TestcaseLine, tcs.TestcaseChar, tcs.TestcaseSymbol, tcs.TestcaseJsStr, tcs.TestcaseAttrs]
 
     L = 7 if ck.tier == "quick" else 9
     cases, impl = [], []
 
+    state = {"i": 0}
+
     def mk(parts, red):
-        t = TestcaseLine()
+        state["i"] += 1
+        t = classes[state["i"] % len(classes)]()
         t.before, t.after = b"<", b">"
         t.parts, t.reducible = list(parts), list(red)
         return t
